@@ -208,7 +208,7 @@ var stemVariants = [][2][]funit.Int16{
 	{{0, 20}, {-32768, 32767, 100, 90}},
 }
 
-var glyphNameSets = [][]string{{"A"}, {".notdef", "A"}, {".notdef", "A", "B"}}
+var glyphNameSets = [][]string{{"A"}, {".notdef", "A"}, {".notdef", "A", "B"}, {".notdef", "A", "B", "C"}}
 
 func radix(i int, sizes ...int) []int {
 	out := make([]int, len(sizes))
@@ -231,7 +231,12 @@ func pow(b, e int) int {
 }
 
 // shapeFamily: fonts with nGlyphs glyphs, each with one of nOut outlines, x stems x width variant.
-func shapeFamily(nGlyphs, nOut int, dom Domain) Family {
+func shapeFamily(nGlyphs int, outs []int, dom Domain) Family {
+	nOut := len(outs)
+	var outNames []string
+	for _, o := range outs {
+		outNames = append(outNames, outlineNames[o])
+	}
 	nW := 3
 	if dom == DomainC08 {
 		nW = 4
@@ -242,7 +247,7 @@ func shapeFamily(nGlyphs, nOut int, dom Domain) Family {
 		Name: fmt.Sprintf("shapes-%d-glyphs", nGlyphs),
 		N:    n,
 		Rule: fmt.Sprintf("glyph names %v, each glyph one of %d outlines %v, x 4 stem variants (none, h, v, both incl. the int16 extremes and a negative width) x %d width variants (all 600; per-glyph 0/1132/-50; vertical advance -1000 on the first glyph%s)",
-			names, nOut, outlineNames[:nOut], nW, map[bool]string{true: "; fractional 500.5/-0.5/107.49", false: ""}[dom == DomainC08]),
+			names, nOut, outNames, nW, map[bool]string{true: "; fractional 500.5/-0.5/107.49", false: ""}[dom == DomainC08]),
 		Build: func(i int) *type1.Font {
 			sizes := make([]int, 0, nGlyphs+2)
 			for k := 0; k < nGlyphs; k++ {
@@ -254,7 +259,7 @@ func shapeFamily(nGlyphs, nOut int, dom Domain) Family {
 			f.Glyphs = map[string]*type1.Glyph{}
 			encm := map[int]string{}
 			for k, name := range names {
-				g := &type1.Glyph{Cmds: Outline(d[k])}
+				g := &type1.Glyph{Cmds: Outline(outs[d[k]])}
 				sv := stemVariants[d[nGlyphs]]
 				g.HStem = append([]funit.Int16(nil), sv[0]...)
 				g.VStem = append([]funit.Int16(nil), sv[1]...)
@@ -262,7 +267,7 @@ func shapeFamily(nGlyphs, nOut int, dom Domain) Family {
 				case 0:
 					g.WidthX = 600
 				case 1:
-					g.WidthX = []float64{0, 1132, -50}[k]
+					g.WidthX = []float64{0, 1132, -50, 2147483647}[k]
 				case 2:
 					g.WidthX = 600
 					if k == 0 {
@@ -270,7 +275,7 @@ func shapeFamily(nGlyphs, nOut int, dom Domain) Family {
 						g.WidthY = -1000
 					}
 				case 3:
-					g.WidthX = []float64{500.5, -0.5, 107.49}[k]
+					g.WidthX = []float64{500.5, -0.5, 107.49, 1131.5}[k]
 				}
 				f.Glyphs[name] = g
 				if name != ".notdef" {
@@ -641,10 +646,19 @@ func Families(tier string, dom Domain) []Family {
 	if dom == DomainC08 {
 		nOut = NumOutlinesOpen
 	}
+	var all, short []int
+	for o := 0; o < nOut; o++ {
+		all = append(all, o)
+		if tier == "thorough" || (o != 12 && o != 13) {
+			// quick tier: the two long outlines appear in the 1- and
+			// 2-glyph families only
+			short = append(short, o)
+		}
+	}
 	fams := []Family{
-		shapeFamily(1, nOut, dom),
-		shapeFamily(2, nOut, dom),
-		shapeFamily(3, nOut, dom),
+		shapeFamily(1, all, dom),
+		shapeFamily(2, all, dom),
+		shapeFamily(3, short, dom),
 		pathLengthFamily(40),
 		infoStringFamily(tier),
 		namesFamily(RegularNames, "names"),
@@ -657,6 +671,8 @@ func Families(tier string, dom Domain) []Family {
 	}
 	if tier == "thorough" {
 		fams[3] = pathLengthFamily(120)
+		four := []int{0, 2, 3, 4, 5, 6, 7, 8, 9, 10}
+		fams = append(fams, shapeFamily(4, four, dom))
 	}
 	return fams
 }
